@@ -379,8 +379,8 @@ CATEGORY = "other"
 LEVEL_TEXT = ("Mixed: deductive (pyvc + z3) for merkle_parent / merkle_parent_level / merkle_root on 1..5 symbolic hashes, bits_to_target per "
               "exponent, target_to_bits per byte-length class, calculate_new_bits per exponent, Block.target / check_pow / HeadersMessage.is_valid "
               "on 1..3 symbolic headers, flag-bit packing; exhaustive + sampled + tamper-catalogue evidence for the BIP37 tree walker and "
-              "float-based tree sizing, which are not proved. Claimed as 'other': several obligations fail on recorded findings (float targets "
-              "for exponent < 3, 2/3-byte or missing bits for targets < 2^16, sign-bit/overflow nBits accepted by check_pow, '<' for '<=').")
+              "float-based tree sizing, which are not proved. Claimed as 'other' because the BIP37 walker and any-length Merkle levels are not proved.  "
+              "The defects these checks found on the pinned tree are repaired by fix: commits in /repo (one `fixed:` line each in /verif/KNOWN_FINDINGS.jsonl).")
 LEVEL_NOTE = ("trusted: pyvc translation (A-ENGINE), spec functions (A-SPEC), harnesses, CPython builtin contracts (A-BUILTIN), SHA256 "
               "uninterpreted; tamper resistance rests on A-CR; termination not verified")
 JOB_TIMEOUT = {"quick": 240, "thorough": 1500}
